@@ -68,6 +68,7 @@ var c08Queries = []c08Query{
 	{Name: "leaf_paths", Q: `[paths(scalars)]`, SortInner: true},
 	{Name: "recurse-count", Q: `[..] | length`},
 	{Name: "getpath-first-key", KeyQuery: true, Q: `getpath([$k0])`},
+	{Name: "index-every-key", Q: `[keys[] as $k | .[$k]]`, SortInner: true, OnlyObject: true},
 	{Name: "getpath-0", Q: `getpath([0])`},
 	{Name: "getpath-absent", Q: `getpath(["absent_key_zz"])`, OnlyObject: true},
 	{Name: "tojson", Q: `tojson`, ParseJSON: true},
